@@ -143,44 +143,7 @@ def run(ctx):
                 "a field helper's range check can fail on the digest (not reduced mod N): %s" % (
                     tm.show(dig[0].value)[:160] if dig else ""), example="digest >= n, e.g. n + 1")
 
-    # ---- DER
-    fd = ctx.fn("bits.utils.der_encode_sig")
-    evd = ctx.evaluator(opaque={"bits.pem.encode_parsed_asn1"})
-    got = evd.run(fd).value()
-    rr, ss = P("r", tm.INT), P("s", tm.INT)
-    want = tm.app("bits.pem.encode_parsed_asn1", [spec_der_tree(rr, ss)], ty=tm.BYTES)
-    R.check("C01.6", "TERM-EQ", fd, "DER tree: SEQ{INT r, INT s} with minimal positive integers", tm.veq(got, want),
-            "DER signature structure: %s" % tm.first_diff(got, want), expected=tm.show(want)[:600], found=tm.show(got)[:600],
-            example="s (or r) with the top bit of its first byte set")
-    # clone symmetry: the S integer is the R integer with r := s
-    m = match(tm.app("bits.pem.encode_parsed_asn1", [[W("hdr"), W("len"), [[W("t1"), W("l1"), W("R")], [W("t2"), W("l2"), W("S")]]]], ty=tm.BYTES), got)
-    if m:
-        sub = tm.subst(m["R"], lambda t: ss if isinstance(t, T) and t.op == "param" and t.args[0] == "r" else None)
-        R.check("C01.6", "TERM-EQ", fd, "r and s are encoded by the same rule (clone symmetry)", tm.veq(sub, m["S"]),
-                "the encoding of s differs from the encoding of r with r:=s: %s" % tm.first_diff(m["S"], sub))
-    # the ASN.1 encoder emits tag, length, content for this tree
-    evf = ctx.evaluator()
-    full = evf.run(fd).value()
-    R_, S_ = der_int(rr), der_int(ss)
-    want_bytes = tm.cat([b"\x30", be(tm.add([tm.length(R_), tm.length(S_), 4]), 1), b"\x02", be(tm.length(R_), 1), R_,
-                         b"\x02", be(tm.length(S_), 1), S_])
-    R.check("C01.6", "TERM-EQ", fd, "DER bytes: 30 len 02 len R 02 len S", tm.veq(full, want_bytes),
-            "DER byte layout: %s" % tm.first_diff(full, want_bytes), expected=tm.show(want_bytes)[:500], found=tm.show(full)[:500])
-    fdd = ctx.fn("bits.utils.der_decode_sig")
-    gotd = evd.run(fdd).value()
-    parsed = tm.app("bits.pem.parse_asn1", [P("der", tm.BYTES)], ty=tm.ANY)
-
-    def path(*ix):
-        v = parsed
-        for i in ix:
-            v = tm.idx(v, i)
-        return v
-    evd2 = ctx.evaluator(opaque={"bits.pem.parse_asn1"})
-    gotd = evd2.run(fdd).value()
-    wantd = (tm.b2i(path(0, 2, 0, 2), "big"), tm.b2i(path(0, 2, 1, 2), "big"))
-    R.check("C01.6", "PROV", fdd, "decode: r from the first INTEGER, s from the second",
-            tm.veq(tm.freeze(tuple(gotd) if isinstance(gotd, (list, tuple)) else gotd), tm.freeze(wantd)),
-            "der_decode_sig: %s" % tm.first_diff(gotd, wantd))
+    check_der(ctx)
 
     # ---- sig(): modes
     fsig = ctx.fn("bits.utils.sig")
@@ -218,6 +181,49 @@ def run(ctx):
                 R.check("C01.7", "DOM", fsig, label + ": preimage flag must equal the argument", chk,
                         "no check that the preimage's trailing sighash equals the requested flag")
     evs.assumptions = {}
+
+
+def check_der(ctx, oid="C01.6"):
+    R = ctx.R
+    # ---- DER
+    fd = ctx.fn("bits.utils.der_encode_sig")
+    evd = ctx.evaluator(opaque={"bits.pem.encode_parsed_asn1"})
+    got = evd.run(fd).value()
+    rr, ss = P("r", tm.INT), P("s", tm.INT)
+    want = tm.app("bits.pem.encode_parsed_asn1", [spec_der_tree(rr, ss)], ty=tm.BYTES)
+    R.check(oid, "TERM-EQ", fd, "DER tree: SEQ{INT r, INT s} with minimal positive integers", tm.veq(got, want),
+            "DER signature structure: %s" % tm.first_diff(got, want), expected=tm.show(want)[:600], found=tm.show(got)[:600],
+            example="s (or r) with the top bit of its first byte set")
+    # clone symmetry: the S integer is the R integer with r := s
+    m = match(tm.app("bits.pem.encode_parsed_asn1", [[W("hdr"), W("len"), [[W("t1"), W("l1"), W("R")], [W("t2"), W("l2"), W("S")]]]], ty=tm.BYTES), got)
+    if m:
+        sub = tm.subst(m["R"], lambda t: ss if isinstance(t, T) and t.op == "param" and t.args[0] == "r" else None)
+        R.check(oid, "TERM-EQ", fd, "r and s are encoded by the same rule (clone symmetry)", tm.veq(sub, m["S"]),
+                "the encoding of s differs from the encoding of r with r:=s: %s" % tm.first_diff(m["S"], sub))
+    # the ASN.1 encoder emits tag, length, content for this tree
+    evf = ctx.evaluator()
+    full = evf.run(fd).value()
+    R_, S_ = der_int(rr), der_int(ss)
+    want_bytes = tm.cat([b"\x30", be(tm.add([tm.length(R_), tm.length(S_), 4]), 1), b"\x02", be(tm.length(R_), 1), R_,
+                         b"\x02", be(tm.length(S_), 1), S_])
+    R.check(oid, "TERM-EQ", fd, "DER bytes: 30 len 02 len R 02 len S", tm.veq(full, want_bytes),
+            "DER byte layout: %s" % tm.first_diff(full, want_bytes), expected=tm.show(want_bytes)[:500], found=tm.show(full)[:500])
+    fdd = ctx.fn("bits.utils.der_decode_sig")
+    gotd = evd.run(fdd).value()
+    parsed = tm.app("bits.pem.parse_asn1", [P("der", tm.BYTES)], ty=tm.ANY)
+
+    def path(*ix):
+        v = parsed
+        for i in ix:
+            v = tm.idx(v, i)
+        return v
+    evd2 = ctx.evaluator(opaque={"bits.pem.parse_asn1"})
+    gotd = evd2.run(fdd).value()
+    wantd = (tm.b2i(path(0, 2, 0, 2), "big"), tm.b2i(path(0, 2, 1, 2), "big"))
+    R.check(oid, "PROV", fdd, "decode: r from the first INTEGER, s from the second",
+            tm.veq(tm.freeze(tuple(gotd) if isinstance(gotd, (list, tuple)) else gotd), tm.freeze(wantd)),
+            "der_decode_sig: %s" % tm.first_diff(gotd, wantd))
+
 
 
 def _strip_apps(v):
